@@ -107,6 +107,8 @@ mut("C14-flush-without-done-check", "C14", "Flush does not check the done flag",
     ("m3/reporter.go", "	if r.done.Load() {\n		return\n	}\n\n	r.reportInternalMetrics()", "	r.reportInternalMetrics()"))
 mut("C14-timeloop-ignores-donech", "C14", "the clock goroutine does not watch the done channel",
     ("m3/reporter.go", "		select {\n		case <-t.C:\n		case <-r.donech:\n			return\n		}", "		<-t.C"))
+mut("C14-pending-after-done-check", "C14", "reportCopyMetric increments the in-flight count after checking the done flag",
+    ("m3/reporter.go", "	r.pending.Inc()\n	defer r.pending.Dec()\n\n	if r.done.Load() {\n		return\n	}\n\n	m.Timestamp = r.now.Load()", "	if r.done.Load() {\n		return\n	}\n\n	r.pending.Inc()\n	defer r.pending.Dec()\n\n	m.Timestamp = r.now.Load()"))
 # ---- C15
 mut("C15-no-reset-on-flush-error", "C15", "Flush keeps the buffer when the send fails",
     ("m3/thriftudp/transport.go", "	_, err := p.conn.Write(p.writeBuf.Bytes())\n	p.writeBuf.Reset() // always reset the buffer, even in case of an error\n	return err", "	_, err := p.conn.Write(p.writeBuf.Bytes())\n	if err == nil {\n		p.writeBuf.Reset()\n	}\n	return err"))
